@@ -2,7 +2,7 @@
    Machine: Builder/Lines.v; declarative content of a text: Builder/Spec.v.  All theorems hold for every payload type,
    every dependency reader and print handler. *)
 From Coq Require Import ZArith List Bool.
-From PV Require Import Builder.Lines Builder.Basics Builder.Spec Builder.Mirror Builder.Blank Builder.Extra Builder.Render Builder.RenderProofs.
+From PV Require Import Builder.Lines Builder.Basics Builder.Spec Builder.Mirror Builder.Blank Builder.Extra Builder.ExtraFull Builder.Render Builder.RenderProofs.
 Import ListNotations.
 Open Scope Z_scope.
 
@@ -50,14 +50,24 @@ Theorem C03_blank_lines : (forall n n' t w, emit n t w = emit n' t w) ->
   outcome T V W (run (p ++ blank_line T V D :: r) w) = outcome T V W (run (p ++ r) w).
 Proof. exact (blank_lines T V D W read_dep emit). Qed.
 
-(* texts with the same statements (extra comments, extra empty lines, comments moved, ...) yield models that differ in
-   docs only.  Partial: both texts are assumed to be accepted; that extra comment/empty lines cannot change acceptance
-   is not proved (it holds for the statements of the grammar, decided by the correspondence check) *)
-Theorem C03_extra_lines_partial : forall (p : list line) (x : line) (r : list line) (w : W) m1 m2 w1 w2,
-  l_stmt T V D x = None -> run (p ++ x :: r) w = Ok (m1, w1) -> run (p ++ r) w = Ok (m2, w2) ->
-  undoc T V m1 = undoc T V m2.
-Proof. exact (extra_lines T V D W read_dep emit). Qed.
+(* an extra comment line inserted anywhere changes neither acceptance nor the world nor anything in the model but docs
+   (same proviso about line numbers passed to the print handler) *)
+Theorem C03_extra_comment_lines : (forall n n' t w, emit n t w = emit n' t w) ->
+  forall (p : list line) (x : line) (r : list line) (w : W),
+  l_stmt T V D x = None -> l_comment T V D x <> None -> p ++ r <> [] ->
+  outcome_undoc T V W (run (p ++ x :: r) w) = outcome_undoc T V W (run (p ++ r) w).
+Proof. exact (comment_lines T V D W read_dep emit). Qed.
 
+(* an extra empty line inserted anywhere (an earlier flush) changes neither acceptance nor the world nor anything in the
+   model but docs, provided no later statement evaluates _offset_ before it has visited an identifier (gl_line: true of
+   every statement of the grammar, where _offset_ is itself an identifier) *)
+Theorem C03_extra_empty_lines : (forall n n' t w, emit n t w = emit n' t w) ->
+  forall (p r : list line) (w : W), Forall (gl_line T V D) r -> p ++ r <> [] ->
+  outcome_undoc T V W (run (p ++ empty_line :: r) w) = outcome_undoc T V W (run (p ++ r) w).
+Proof. exact (empty_lines T V D W read_dep emit). Qed.
+
+(* any two accepted texts with the same statements (comments moved, removed, added; separator lines changed) yield models
+   that differ in docs only.  Partial: acceptance of both is assumed here (for single inserted lines it is proved above) *)
 Theorem C03_same_statements_partial : forall (ls1 ls2 : list line) (w1 w2 : W) m1 m2 w1' w2',
   sk T V D ls1 = sk T V D ls2 -> run ls1 w1 = Ok (m1, w1') -> run ls2 w2 = Ok (m2, w2') -> undoc T V m1 = undoc T V m2.
 Proof. exact (same_statements T V D W read_dep emit). Qed.
@@ -75,7 +85,8 @@ Print Assumptions C03_mirror.
 Print Assumptions C03_mirror_once.
 Print Assumptions C03_final_newline.
 Print Assumptions C03_blank_lines.
-Print Assumptions C03_extra_lines_partial.
+Print Assumptions C03_extra_comment_lines.
+Print Assumptions C03_extra_empty_lines.
 Print Assumptions C03_same_statements_partial.
 
 (* non-vacuity: a service definition with header docs, a field whose doc continues on a comment line, a padding, a
